@@ -1052,7 +1052,7 @@ bool Process::Arguments::nextChar()
 
 bool Process::Arguments::read(int& character, String& argument)
 {
-  if(!nextChar())
+  if(!(inOpt && *arg) && !nextChar()) // inside a cluster like -abc arg already points to the next option character
     return false;
 
   if(!inOpt && !skipOpt)
